@@ -15,7 +15,7 @@ func init() {
 			"C02.params-agree: the min/avg/max an index records are the values the chunker was built with (IndexFromFile: same SSA values to NewChunker and FormatIndex; ChunkStream: Chunker.Min/Avg/Max return the fields NewChunker set from the like-named parameters). C02.digest-flag: the index's digest bit follows the digest in use (shared with C05). " +
 			"C02.id-size-same-bytes: pChunker.start records Size=len(b), ID=Digest.Sum(b) of the b returned by Chunker.Next, at Next's start plus the worker's offset. C02.split: every return of Chunker.Next goes through split, which slices, trims the buffer and advances start by the same operand and resets the hash; C02.ctor-guards: NewChunker builds a Chunker only behind its four parameter checks. " +
 			"C02.fill: fillBuffer reads into a fresh buffer, adds every Read's byte count before testing the error, and keeps the unread tail. C02.sync: syncWith reports 'in sync' only on the equal edges of both Start and Size; the null-run skip-ahead is computed only when both the current and the previous bucket entries are null chunks; the amount passed to Chunker.Advance equals the total size of the null chunks emitted for it. " +
-			"C02.order: IndexFromFile concatenates the buckets in worker order and stops after the first worker that hit EOF; ChunkStream rebuilds the list by index 0..len-1, never by ranging over the map.",
+			"C02.worker-errors: on every path of pChunker.start on which Chunker.Next/Advance failed the worker returns with pChunker.err non-nil (a read error with an empty chunk is not an EOF). C02.order: IndexFromFile concatenates the buckets in worker order and stops after the first worker that hit EOF; ChunkStream rebuilds the list by index 0..len-1, never by ranging over the map.",
 		NotDecided: "rolling-hash boundaries, parallel == sequential for every schedule, independence of reader fragmentation beyond the count/keep-tail clauses.",
 		Rules: []rule{
 			{"C02.params-agree", "recorded chunk-size parameters are the chunker's parameters", 6, c02Params},
@@ -27,6 +27,7 @@ func init() {
 			{"C02.fill", "buffer refill counts every read, uses a fresh buffer and keeps the tail", 3, c02Fill},
 			{"C02.sync", "worker hand-over only on equal start and size; null skip-ahead only inside a proven null run; Advance matches the emitted null chunks", 3, c02Sync},
 			{"C02.order", "chunk lists are assembled in worker order / job order", 3, c02Order},
+			{"C02.worker-errors", "a failed chunker call always ends the chunking worker with its err field set", 1, c02WorkerErrors},
 			{"C02.null-chunk-consistent", "the null chunk's ID is the digest of exactly its Data, a buffer of its own", 2, func(c *Ctx) { c.nullChunkConsistent() }},
 		},
 	})
@@ -659,4 +660,57 @@ func c02SizeBoundaries(c *Ctx) {
 		{"short-tail", map[string]int{"Chunker.min": 1, "len(Chunker.buf)": -1}, -1, 1, "the rest is emitted as one chunk iff len(buf) <= min"},
 		{"hard-cut", map[string]int{m: 1, pos: -1}, 1, 1, "after consuming byte pos the chunk is cut iff pos+1 >= m"},
 	})
+}
+
+// c02WorkerErrors: a chunking worker has no error result; it reports a failure of the chunker by
+// leaving it in pChunker.err, which IndexFromFile reads after draining the worker.  On every
+// path on which Chunker.Next or Chunker.Advance failed, the worker ends with err set - in
+// particular a read error that arrives with an empty chunk is not taken for the end of the input.
+func c02WorkerErrors(c *Ctx) {
+	fn := c.mustFn("pChunker.start")
+	if fn == nil {
+		return
+	}
+	var errField *ssa.FieldAddr
+	instrs(fn, func(_ *ssa.BasicBlock, _ int, ins ssa.Instruction) {
+		if fa, ok := ins.(*ssa.FieldAddr); ok && fieldOf(fa) == "pChunker.err" && fa.Parent() == fn {
+			errField = fa
+		}
+	})
+	if errField == nil {
+		c.bad("pChunker.start:errors-recorded", fn.Pos(), "the worker never touches pChunker.err")
+		return
+	}
+	sites := map[*ssa.Call]bool{}
+	var bad []string
+	h := &Hooks{MaxVisits: 2}
+	h.Fork = func(st *State, call *ssa.Call) []map[int]Val {
+		switch callee(call) {
+		case "(*desync.Chunker).Next", "(*desync.Chunker).Advance":
+			sites[call] = true
+			ei := errResultIndex(call)
+			return []map[int]Val{{ei: {N: NNil, Class: ClsNil}}, {ei: {N: NNon, Class: ClsOther, Sym: "failed:" + callee(call)}}}
+		}
+		return nil
+	}
+	h.Return = func(st *State, ret *ssa.Return, _ []Val) {
+		if !st.Has("outcome:failed") {
+			return
+		}
+		if st.load(errField).N != NNon && len(bad) < 3 {
+			bad = append(bad, fmt.Sprintf("the worker can end at %s after the chunker failed without pChunker.err being set (trail %s): the consumer takes the partial chunk list for a complete one", c.pos(ret.Pos()), strings.Join(st.Trail, ">")))
+		}
+	}
+	Explore(fn, fn.Blocks[0], 0, nil, NewState(), h)
+	c.paths += h.Paths
+	switch {
+	case h.Truncated:
+		c.bad("pChunker.start:errors-recorded", fn.Pos(), "path exploration truncated")
+	case len(sites) == 0:
+		c.bad("pChunker.start:errors-recorded", fn.Pos(), "the worker calls neither Chunker.Next nor Chunker.Advance")
+	case len(bad) > 0:
+		c.bad("pChunker.start:errors-recorded", fn.Pos(), "%s", bad[0])
+	default:
+		c.ok("pChunker.start:errors-recorded", fn.Pos(), "%d fallible chunker call(s); every failure ends the worker with err set", len(sites))
+	}
 }
